@@ -21,3 +21,16 @@ func VerifDecodeKey(seq ansi.Sequence) Key { return decodeKey(seq) }
 
 // VerifParseMouse exposes parseMouseEvent.
 func VerifParseMouse(seq ansi.CSI) (Mouse, bool) { return parseMouseEvent(seq) }
+
+// VerifRenderVaxis builds a Vaxis that renders into a recording console (no goroutines) and
+// returns a function taking the bytes written since the last call.
+func VerifRenderVaxis(cols, rows int) (*Vaxis, func() []byte) {
+	vx, con := verifRenderVaxis(cols, rows)
+	return vx, con.take
+}
+
+// VerifExpectStyle is the style a conforming terminal shows for st under vx's capabilities.
+func VerifExpectStyle(vx *Vaxis, st Style) Style { return verifExpectStyle(vx, st) }
+
+// VerifSetSixelCap sets the one capability the embedded terminal advertises (DA1 4).
+func VerifSetSixelCap(vx *Vaxis) { vx.caps.sixels = true }
